@@ -127,25 +127,23 @@ def data_files():
 
 
 def generated_files(ck, tmp):
-    """DEX files from the shared assembler, when it exists (harness/dexasm.py)"""
-    path = os.path.join(fw.VERIF, "harness", "dexasm.py")
-    if not os.path.exists(path):
+    """DEX files with loops / short-circuit conditions / breaks / try-catch written with the shared assembler
+    harness/dexasm.py (when it exists): harness/c22_gen.py"""
+    if not os.path.exists(os.path.join(fw.VERIF, "harness", "dexasm.py")):
         return []
     try:
-        from harness import dexasm
-        gen = getattr(dexasm, "sample_dex_files", None) or getattr(dexasm, "generate_samples", None)
-        if gen is None:
-            return []
-        out = []
-        for i, blob in enumerate(gen(ck.rng, 6 if ck.quick else 40)):
-            p = os.path.join(tmp, "gen%d.dex" % i)
-            with open(p, "wb") as f:
-                f.write(bytes(blob))
-            out.append((p, len(blob)))
-        return out
+        from harness import c22_gen
+        blobs = c22_gen.generate(random.Random("C22/gen/%d" % ck.seed), 6 if ck.quick else 40)
     except Exception as e:  # noqa: the assembler is somebody else's file; never a verdict
-        ck.notes.append("dexasm present but unusable for C22: %s" % type(e).__name__)
+        ck.notes.append("dexasm present but unusable for C22: %s: %s" % (type(e).__name__, e))
         return []
+    out = []
+    for i, blob in enumerate(blobs):
+        p = os.path.join(tmp, "gen%d.dex" % i)
+        with open(p, "wb") as f:
+            f.write(blob)
+        out.append((p, len(blob)))
+    return out
 
 
 def corpus_cases():
@@ -171,9 +169,11 @@ def compare_outputs(runs):
     return {g: v for g, v in groups.items() if len(v) > 1}, len(groups)
 
 
-def fetch_text(pool, path, cls, cfg, key):
+def fetch_text(pool, path, spec, cfg, key):
+    """re-run exactly the job of the sweep (same class list, same order, same seed and salt: with hook H2 the
+    hashes are a function of the creation order and the salt, so the run is reproducible) and return one text"""
     hs, salt, order = cfg
-    out = pool.run_one(({"file": path, "classes": [cls], "order": order, "want": [key], "lazy": True}, hs, salt))
+    out = pool.run_one((dict(spec, file=path, order=order, want=[key]), hs, salt))
     return out["sources"].get(key), out["results"].get(key)
 
 
@@ -182,20 +182,25 @@ def explain(a, b):
     return d[:14]
 
 
-def report_diffs(ck, pool, path, diffs, limit):
+def report_diffs(ck, pool, path, spec, diffs, limit):
     rel = os.path.relpath(path, fw.REPO) if path.startswith(fw.REPO) else os.path.basename(path)
+    gen = {}
+    if not path.startswith(fw.REPO):        # a generated file: the replay carries its bytes
+        import base64
+        with open(path, "rb") as f:
+            gen = {"generated_dex_b64": base64.b64encode(f.read()).decode()}
+    spec = {k: v for k, v in spec.items() if k not in ("file", "order", "want")}
     n = 0
-    for g, variants in sorted(diffs.items()):
+    # methods first (smaller texts), then whole classes
+    for g, variants in sorted(diffs.items(), key=lambda kv: (kv[0][0] != "m", kv[0])):
         if n >= limit:
             break
         cls = g.split(" ")[1]
         (sa, la), (sb, lb) = sorted(variants.items(), key=lambda kv: -len(kv[1]))[:2]
         (cfga, ka), (cfgb, kb) = la[0], lb[0]
-        ta, ha = fetch_text(pool, path, cls, cfga, ka)
-        tb, hb = fetch_text(pool, path, cls, cfgb, kb)
-        # the single-class rerun has another allocation history: report what the rerun shows, and fall back
-        # to the hashes of the sweep when the rerun happens to agree
-        case = {"file": rel, "class": cls, "group": g,
+        ta, ha = fetch_text(pool, path, spec, cfga, ka)
+        tb, hb = fetch_text(pool, path, spec, cfgb, kb)
+        case = {"file": rel, "class": cls, "group": g, "spec": spec, **gen,
                 "a": {"hashseed": cfga[0], "salt": cfga[1], "order": cfga[2], "key": ka},
                 "b": {"hashseed": cfgb[0], "salt": cfgb[1], "order": cfgb[2], "key": kb},
                 "variants": len(variants)}
@@ -204,7 +209,7 @@ def report_diffs(ck, pool, path, diffs, limit):
             ck.fail(case, what, None, expected=explain(ta, tb), observed="sha %s vs %s" % (ha, hb))
         else:
             case["sweep_only"] = True
-            ck.fail(case, what + " [seen in the sweep; the single-class rerun agreed]", None,
+            ck.fail(case, what + " [seen in the sweep; not reproduced by the rerun]", None,
                     expected="sha " + sa, observed="sha " + sb)
         n += 1
     return n
@@ -212,9 +217,10 @@ def report_diffs(ck, pool, path, diffs, limit):
 
 def sweep(ck, pool, files, cfgs, nclasses, include, stream):
     """decompile (a sample of) every file under every config; compare. returns stats"""
-    jobs, meta = [], []
+    jobs, meta, specs = [], [], {}
     for path, size in files:
         spec0 = {"file": path, "lazy": nclasses is not None}
+        specs[path] = spec0
         if nclasses is not None:
             spec0["sample"] = {"seed": "C22/%d/%s" % (ck.seed, os.path.basename(path)), "n": nclasses,
                                "include": include.get(os.path.basename(path), [])}
@@ -241,7 +247,7 @@ def sweep(ck, pool, files, cfgs, nclasses, include, stream):
                 if k[0] in "MK" and not v.startswith("EXC"):
                     distinct.add(v)
         if diffs:
-            report_diffs(ck, pool, path, diffs, limit=3)
+            report_diffs(ck, pool, path, specs[path], diffs, limit=2)
     ck.cover(evaluations=tot_texts, distinct=distinct,
              dist={stream + "_files": len(byfile), stream + "_configs": len(cfgs), stream + "_groups": tot_groups,
                    stream + "_groups_differing": tot_diff})
@@ -420,11 +426,11 @@ def _run(ck, pool, drv):
     big = [(p, s) for p, s in files if s >= 200_000]
     if ck.quick:
         sweep(ck, pool, small, cfgs, None, {}, "small")
-        sweep(ck, pool, big, cfgs, 60, include, "big")
+        sweep(ck, pool, big, cfgs, 40, include, "big")
     else:
         sweep(ck, pool, small, cfgs, None, {}, "small")
-        sweep(ck, pool, big, cfgs, 400, include, "big")
-        sweep(ck, pool, big, cfgs[:6], None, {}, "bigfull")
+        sweep(ck, pool, big, cfgs, 250, include, "big")
+        sweep(ck, pool, big, cfgs[:4], None, {}, "bigfull")
     ck.samples.extend([
         {"configs": ["hashseed=%s salt=%s order=%s" % c for c in cfgs[:4]]},
         {"files": [os.path.relpath(p, fw.REPO) for p, _ in files][:12], "duplicate_dex_skipped": dups},
@@ -468,10 +474,16 @@ def replay(ck: Check, rp):
     pool = Pool(ck)
     try:
         path = os.path.join(fw.REPO, c["file"])
+        if "generated_dex_b64" in c:
+            import base64
+            path = os.path.join(pool.tmp, "replay.dex")
+            with open(path, "wb") as f:
+                f.write(base64.b64decode(c["generated_dex_b64"]))
         res = []
         for side in ("a", "b"):
             s = c[side]
-            t, h = fetch_text(pool, path, c["class"], (s["hashseed"], s["salt"], s["order"]), s["key"])
+            t, h = fetch_text(pool, path, c.get("spec") or {"classes": [c["class"]], "lazy": True},
+                              (s["hashseed"], s["salt"], s["order"]), s["key"])
             res.append((t, h))
             print("run %s: PYTHONHASHSEED=%s ANDROGUARD_VERIF_HASHSALT=%s order=%s key=%s -> sha %s"
                   % (side, s["hashseed"], s["salt"], s["order"], s["key"], h))
